@@ -35,6 +35,13 @@ def _geo(c):
     sw.set_node_weight_type("irrigation")
     o["sw4"] = enc.arr(sw.node_weights, 10**4)
     o["swtot4"] = enc.num(sw.total_node_weight, 10**4)
+    # history: other weights are assigned, then the SAME weight type is requested again - the weights in force are
+    # again the cosines of latitude
+    back = GeoNetwork(g, adjacency=A, node_weight_type="surface", silence_level=3)
+    back.node_weights = np.full(n, 2.0)
+    back.set_node_weight_type("surface")
+    o["back4"] = enc.arr(back.node_weights, 10**4)
+    o["backtot4"] = enc.num(back.total_node_weight, 10**4)
     o["awc6"] = enc.arr(net.area_weighted_connectivity())
     # the area-weighted connectivity is defined by the cosines of latitude, whatever n.s.i. weights are in force
     o["awc6_irr"] = enc.arr(irr.area_weighted_connectivity())
